@@ -119,7 +119,10 @@ func c08Contains(pfam int, paddr []byte, ones int, afam int, addr []byte) bool {
 }
 
 func c08Scenarios(r *vmc.Result) []rtScenario {
-	pool := []string{"0.0.0.0/0", "10.0.0.0/8", "10.1.0.0/16", "10.1.2.0/24", "10.1.2.3/32", "10.2.0.0/16", "::/0", "2001:db8::/32", "2001:db8:1::/48"}
+	pool := []string{"0.0.0.0/0", "10.0.0.0/8", "10.1.0.0/16", "10.1.2.0/24", "10.1.2.3/32", "::/0", "2001:db8::/32", "2001:db8:1::/48"}
+	if r.Thorough() {
+		pool = append(pool, "10.2.0.0/16") // a sibling that contains none of the nested chain
+	}
 	if os.Getenv("VERIF_C08_MAPPED_PREFIX") != "" {
 		// opt-in experiment (see NOTES.md): an IPv4-mapped IPv6 prefix shares the map key of 10.0.0.0/8
 		// but reports 104 mask bits. Not part of the registered check.
